@@ -42,11 +42,38 @@ type mbNorm struct {
 	busy    map[types.Object]bool
 	recArgs func(call *ast.CallExpr) string
 	inlineD int // helper-inlining depth
+	// symbolic execution (rules_members_sym.go): values of helper calls already
+	// executed on the current path, formulas of bool locals, options
+	callVals map[*ast.CallExpr]mbCallVal
+	boolEnv  map[types.Object]*mbB
+	noIntr   bool
+	symMode  bool
+	reg      *mbAtomReg
+}
+
+// fork: a copy with its own environment (roles, bool formulas, call values).
+func (n *mbNorm) fork() *mbNorm {
+	c := *n
+	c.roles = make(map[types.Object]string, len(n.roles)+4)
+	for k, v := range n.roles {
+		c.roles[k] = v
+	}
+	c.boolEnv = make(map[types.Object]*mbB, len(n.boolEnv))
+	for k, v := range n.boolEnv {
+		c.boolEnv[k] = v
+	}
+	c.callVals = make(map[*ast.CallExpr]mbCallVal, len(n.callVals))
+	for k, v := range n.callVals {
+		c.callVals[k] = v
+	}
+	c.busy = map[types.Object]bool{}
+	return &c
 }
 
 func mbNewNorm(l *mbLib, fd *ast.FuncDecl) *mbNorm {
 	n := &mbNorm{l: l, info: l.info, defs: map[types.Object][]mbDef{}, ranges: map[types.Object]mbRangeDef{},
-		implic: map[types.Object]ast.Expr{}, roles: map[types.Object]string{}, busy: map[types.Object]bool{}}
+		implic: map[types.Object]ast.Expr{}, roles: map[types.Object]string{}, busy: map[types.Object]bool{},
+		callVals: map[*ast.CallExpr]mbCallVal{}, boolEnv: map[types.Object]*mbB{}}
 	if fn, ok := l.info.Defs[fd.Name].(*types.Func); ok {
 		n.selfFn = fn
 	}
@@ -62,7 +89,8 @@ func mbNewNorm(l *mbLib, fd *ast.FuncDecl) *mbNorm {
 // receiver of enc keeps the role `self`).
 func mbNewNormLit(l *mbLib, enc *ast.FuncDecl, lit *ast.FuncLit) *mbNorm {
 	n := &mbNorm{l: l, info: l.info, defs: map[types.Object][]mbDef{}, ranges: map[types.Object]mbRangeDef{},
-		implic: map[types.Object]ast.Expr{}, roles: map[types.Object]string{}, busy: map[types.Object]bool{}}
+		implic: map[types.Object]ast.Expr{}, roles: map[types.Object]string{}, busy: map[types.Object]bool{},
+		callVals: map[*ast.CallExpr]mbCallVal{}, boolEnv: map[types.Object]*mbB{}}
 	if enc != nil && enc.Recv != nil && len(enc.Recv.List[0].Names) > 0 {
 		n.roles[l.info.Defs[enc.Recv.List[0].Names[0]]] = "self"
 	}
@@ -342,23 +370,24 @@ func (n *mbNorm) strB(e ast.Expr, depth int, neg bool) string {
 	return n.strD(e, depth)
 }
 
-// inline substitutes a call of a single-return helper of the same package by
-// the returned expression (result idx; -1 = the only result), with the
-// helper's receiver and parameters bound to the call's operands.
-func (n *mbNorm) inline(call *ast.CallExpr, idx int, depth int, neg bool) (string, bool) {
+// inlineTarget: call is a call of a single-return helper of the same package
+// (not a constructor, not the function itself); returns a normaliser for the
+// helper's body with receiver and parameters bound to the call's operands, and
+// the returned expression (result idx; -1 = the only result).
+func (n *mbNorm) inlineTarget(call *ast.CallExpr, idx int, depth int) (*mbNorm, ast.Expr) {
 	if n.l == nil || n.inlineD >= 2 {
-		return "", false
+		return nil, nil
 	}
 	fn := CalleeOf(n.info, call)
 	if fn == nil || fn == n.selfFn {
-		return "", false
+		return nil, nil
 	}
 	fd := n.l.decls[fn]
 	if fd == nil || fd.Body == nil {
-		return "", false
+		return nil, nil
 	}
 	if n.l.ctorOf(fn) != nil || n.l.errClass(call) != "" {
-		return "", false
+		return nil, nil
 	}
 	var ret *ast.ReturnStmt
 	cnt := 0
@@ -370,19 +399,28 @@ func (n *mbNorm) inline(call *ast.CallExpr, idx int, depth int, neg bool) (strin
 		return true
 	})
 	if cnt != 1 {
-		return "", false
+		return nil, nil
 	}
 	if idx < 0 {
 		if len(ret.Results) != 1 {
-			return "", false
+			return nil, nil
 		}
 		idx = 0
 	}
 	if idx >= len(ret.Results) {
-		return "", false
+		return nil, nil
 	}
+	sub := n.subNorm(call, fd, depth)
+	sub.selfFn = fn
+	return sub, ret.Results[idx]
+}
+
+// subNorm: a normaliser for the body of helper fd as called by `call`:
+// receiver and parameters are bound to the (rendered) operands of the call.
+func (n *mbNorm) subNorm(call *ast.CallExpr, fd *ast.FuncDecl, depth int) *mbNorm {
 	sub := &mbNorm{l: n.l, info: n.info, defs: map[types.Object][]mbDef{}, ranges: map[types.Object]mbRangeDef{},
-		implic: map[types.Object]ast.Expr{}, roles: map[types.Object]string{}, busy: map[types.Object]bool{}, selfFn: fn, inlineD: n.inlineD + 1}
+		implic: map[types.Object]ast.Expr{}, roles: map[types.Object]string{}, busy: map[types.Object]bool{}, inlineD: n.inlineD + 1,
+		callVals: map[*ast.CallExpr]mbCallVal{}, boolEnv: map[types.Object]*mbB{}, noIntr: n.noIntr, symMode: n.symMode, recArgs: n.recArgs, reg: n.reg}
 	if fd.Recv != nil && len(fd.Recv.List[0].Names) > 0 {
 		if sel, ok := call.Fun.(*ast.SelectorExpr); ok {
 			sub.roles[n.info.Defs[fd.Recv.List[0].Names[0]]] = n.strD(sel.X, depth)
@@ -392,19 +430,77 @@ func (n *mbNorm) inline(call *ast.CallExpr, idx int, depth int, neg bool) (strin
 	for _, f := range fd.Type.Params.List {
 		for _, nm := range f.Names {
 			if i < len(call.Args) {
-				sub.roles[n.info.Defs[nm]] = n.strD(call.Args[i], depth)
+				o := n.info.Defs[nm]
+				sub.roles[o] = n.argStr(call.Args[i], depth)
+				if n.symMode {
+					if b, ok := n.info.TypeOf(call.Args[i]).Underlying().(*types.Basic); ok && b.Info()&types.IsBoolean != 0 {
+						sub.boolEnv[o] = n.formula(call.Args[i], depth)
+					}
+				}
 			}
 			i++
 		}
 	}
 	sub.collect(fd.Body)
-	if b, ok := n.info.TypeOf(ret.Results[idx]).Underlying().(*types.Basic); ok && b.Info()&types.IsBoolean != 0 {
-		return sub.strB(ret.Results[idx], 0, neg), true
+	return sub
+}
+
+// argStr: an operand that will be substituted into other expressions.
+func (n *mbNorm) argStr(e ast.Expr, depth int) string {
+	s := n.strD(e, depth)
+	if n.symMode {
+		if be, ok := ast.Unparen(e).(*ast.BinaryExpr); ok && be.Op != token.LAND && be.Op != token.LOR {
+			if _, isCmp := mbFlipCmp(be.Op); !isCmp {
+				return "(" + s + ")"
+			}
+		}
+	}
+	return s
+}
+
+// inline substitutes a call of a single-return helper of the same package by
+// the returned expression (result idx; -1 = the only result), with the
+// helper's receiver and parameters bound to the call's operands.
+func (n *mbNorm) inline(call *ast.CallExpr, idx int, depth int, neg bool) (string, bool) {
+	if cv, ok := n.callVals[call]; ok {
+		k := idx
+		if k < 0 {
+			k = 0
+		}
+		if k < len(cv.vals) && (idx >= 0 || len(cv.vals) == 1) {
+			if neg {
+				if k < len(cv.bvals) && cv.bvals[k] != nil {
+					return mbCanonB(mbNotB(cv.bvals[k])), true
+				}
+				return "!" + cv.vals[k], true
+			}
+			return cv.vals[k], true
+		}
+	}
+	sub, res := n.inlineTarget(call, idx, depth)
+	if sub == nil {
+		return "", false
+	}
+	if b, ok := n.info.TypeOf(res).Underlying().(*types.Basic); ok && b.Info()&types.IsBoolean != 0 {
+		return sub.strB(res, 0, neg), true
 	}
 	if neg {
-		return "!" + sub.strD(ret.Results[idx], 0), true
+		return "!" + sub.strD(res, 0), true
 	}
-	return sub.strD(ret.Results[idx], 0), true
+	return sub.strD(res, 0), true
+}
+
+// binStr: X op Y; the operands of a commutative arithmetic operator are
+// ordered so that `a + b` and `b + a` read alike (not for strings).
+func (n *mbNorm) binStr(op token.Token, a, b string, t types.Type) string {
+	if op == token.ADD || op == token.MUL {
+		if t != nil {
+			if bt, ok := t.Underlying().(*types.Basic); ok && bt.Info()&types.IsNumeric != 0 && b < a {
+				a, b = b, a
+			}
+		}
+	}
+	return a + " " + op.String() + " " + b
 }
 
 func (n *mbNorm) strD(e ast.Expr, depth int) string {
@@ -415,9 +511,13 @@ func (n *mbNorm) strD(e ast.Expr, depth int) string {
 		return "…"
 	}
 	if tv, ok := n.info.Types[e]; ok && tv.Value != nil {
-		// constants by value, except named constants of the libraries (kinds)
+		// constants by value, except the constants of a named constant type
+		// (kind enumerations), which are compared by name; a named constant of
+		// a basic type (`const firstIndex = 0`) is just its value
 		if k := ConstOf(n.info, e); k != nil && k.Pkg() != nil {
-			return mbTwin(k.Name())
+			if _, named := types.Unalias(k.Type()).(*types.Named); named {
+				return mbTwin(k.Name())
+			}
 		}
 		return tv.Value.ExactString()
 	}
@@ -453,8 +553,7 @@ func (n *mbNorm) strD(e ast.Expr, depth int) string {
 			return "nil"
 		case *types.Func:
 			if n.l != nil && o.Pkg() == n.l.pkg.Types {
-				nm := mbTwin(o.Name())
-				return strings.ToLower(nm[:1]) + nm[1:]
+				return mbNameTok(o.Name())
 			}
 			return o.Name()
 		case *types.Const, *types.TypeName, *types.Builtin, *types.PkgName:
@@ -486,6 +585,13 @@ func (n *mbNorm) strD(e ast.Expr, depth int) string {
 				return id.Name + "." + mbTwin(x.Sel.Name)
 			}
 		}
+		if n.l != nil {
+			// unexported fields / methods of the library: compared modulo a
+			// consistent renaming between the twins (mbTwinCtx.same)
+			if sel, ok := n.info.Selections[x]; ok && sel.Obj().Pkg() == n.l.pkg.Types && !sel.Obj().Exported() {
+				return n.strD(x.X, depth) + "." + mbNameTok(x.Sel.Name)
+			}
+		}
 		return n.strD(x.X, depth) + "." + x.Sel.Name
 	case *ast.UnaryExpr:
 		if x.Op == token.AND {
@@ -499,12 +605,16 @@ func (n *mbNorm) strD(e ast.Expr, depth int) string {
 		if x.Op == token.LAND || x.Op == token.LOR {
 			return n.strB(x, depth, false)
 		}
-		return n.strD(x.X, depth) + " " + x.Op.String() + " " + n.strD(x.Y, depth)
+		return n.binStr(x.Op, n.operand(x.X, depth), n.operand(x.Y, depth), n.info.TypeOf(x))
 	case *ast.BasicLit:
 		return x.Value
 	case *ast.IndexExpr:
-		// synthetic tuple selector produced by collect
-		return n.strD(x.X, depth) + "[" + n.strD(x.Index, depth) + "]"
+		// (also the synthetic tuple selector produced by collect)
+		bs, is := n.strD(x.X, depth), n.strD(x.Index, depth)
+		if is == "key("+bs+")" {
+			return "elem(" + bs + ")" // X[i] inside the index-loop reading of `range X`
+		}
+		return bs + "[" + is + "]"
 	case *ast.SliceExpr:
 		return n.strD(x.X, depth) + "[" + n.strD(x.Low, depth) + ":" + n.strD(x.High, depth) + "]"
 	case *ast.CompositeLit:
@@ -529,6 +639,28 @@ func (n *mbNorm) strD(e ast.Expr, depth int) string {
 		return n.callStr(x, depth)
 	}
 	return exprStr(e)
+}
+
+// operand of an arithmetic operator: a nested arithmetic expression keeps its
+// grouping.
+func (n *mbNorm) operand(e ast.Expr, depth int) string {
+	s := n.strD(e, depth)
+	if be, ok := ast.Unparen(e).(*ast.BinaryExpr); ok && be.Op != token.LAND && be.Op != token.LOR {
+		if _, isCmp := mbFlipCmp(be.Op); !isCmp {
+			return "(" + s + ")"
+		}
+	}
+	return s
+}
+
+// mbNameTok marks the name of a function / unexported member of a value
+// library inside a canonical form. Such names are not compared literally: the
+// forms of the twins must agree modulo a consistent pairing of these names
+// (mbTwinCtx.same), so that renaming an unexported helper, method or field in
+// one library does not change a table.
+func mbNameTok(name string) string {
+	nm := mbTwin(name)
+	return "‹" + strings.ToLower(nm[:1]) + nm[1:] + "›"
 }
 
 func (n *mbNorm) defStr(d mbDef, depth int) string {
@@ -557,6 +689,9 @@ func (n *mbNorm) defStr(d mbDef, depth int) string {
 }
 
 func (n *mbNorm) callStr(x *ast.CallExpr, depth int) string {
+	if cv, ok := n.callVals[x]; ok && len(cv.vals) == 1 {
+		return cv.vals[0]
+	}
 	if tv, ok := n.info.Types[x.Fun]; ok && tv.IsType() {
 		ts := mbTwin(types.TypeString(tv.Type, func(*types.Package) string { return "" }))
 		if len(x.Args) == 1 {
